@@ -10,7 +10,7 @@
   strategies are arbitrary.  Only `strategy_lookup_total` needs the history to be one that
   management can produce (no unset of the root strategy, F-05b).
 -/
-import NdnVerif.C05.LemmasRun
+import NdnVerif.C05.LemmasCall
 namespace Ndn.C05
 
 /-! ## the specification's lookup *is* longest-prefix match -/
@@ -215,5 +215,93 @@ theorem strategy_lookup_total (d : Name) (ops : List Op) (hadm : ∀ op ∈ ops,
   rw [(hash_refines_spec m hm d ops name).2.2.2]; exact hs
 
 example : ((runSpec [⟨8, [100]⟩] [.sets [] [⟨8, [101]⟩], .unsets [⟨8, [97]⟩]]).lpmStrategy [⟨8, [97]⟩]) = some [⟨8, [101]⟩] := by decide
+
+
+/-! ## `ReplaceNextHopsEnc`, and histories of interface calls
+
+  `Call` = one of the five primitive operations or `ReplaceNextHopsEnc updates`; `runTreeC`,
+  `runHashC`, `runSpecC` are the tables after a history of calls.  Both implementations execute a
+  replace as clear + inserts per listed prefix (`replaceWith`), so a call history reduces to a
+  history of primitive operations and every theorem above carries over. -/
+
+/-- What a replace means on the abstract table: afterwards the prefix holds exactly the listed
+    next hops (a face listed twice keeps the later cost; literally the list when faces are
+    distinct, nothing when the list is empty), every other prefix and every strategy is untouched. -/
+theorem spec_replace_exact (s : Spec) (n : Name) (hs : Hops) (x : Name) :
+    (s.call (.replace [(n, hs)])).nhAt x = (if n = x then hs.foldl (fun a h => aset a h.1 h.2) [] else s.nhAt x) ∧
+    (s.call (.replace [(n, hs)])).stAt x = s.stAt x ∧
+    (KeysNodup hs → (s.call (.replace [(n, hs)])).nhAt n = hs) := by
+  have e : s.call (.replace [(n, hs)]) = (hs.map fun h => Op.ins n h.1 h.2).foldl Spec.apply (s.apply (.clr n)) := by
+    rw [Spec.call_eq]; simp [Call.expand, expandUpdate]
+  have h1 : ∀ y, (s.call (.replace [(n, hs)])).nhAt y =
+      (if n = y then hs.foldl (fun a h => aset a h.1 h.2) [] else s.nhAt y) := by
+    intro y
+    rw [e, foldl_ins_nhAt]
+    simp only [Spec.nhAt_apply, nhStep, if_true]
+    by_cases hk : n = y <;> simp [hk]
+  refine ⟨h1 x, ?_, ?_⟩
+  · rw [e, Spec.stAt_foldl_ins]; rfl
+  · intro hn
+    rw [h1 n]; simp only [if_true]
+    have := foldl_aset_append hs [] (by simpa using hn)
+    simpa using this
+
+example : (runSpecC [] [.op (.ins [⟨8, [97]⟩] 1 0), .replace [([⟨8, [97]⟩], [(2, 7)])]]).lpmNextHops [⟨8, [97]⟩, ⟨8, [98]⟩] = [(2, 7)] := by decide
+example : (runSpecC [] [.op (.ins [] 1 0), .op (.ins [] 2 5), .replace [([], [(2, 5), (3, 9)])]]).listFib = [([], [(2, 5), (3, 9)])] := by decide
+
+/-- a history of calls is the history of the primitive operations it performs — in the tree, in
+    the hash table and in the abstract table -/
+theorem calls_reduce_to_ops (m : Nat) (d : Name) (calls : List Call) :
+    runTreeC d calls = runTree d (calls.flatMap Call.expand) ∧
+    runHashC m d calls = runHash m d (calls.flatMap Call.expand) ∧
+    runSpecC d calls = runSpec d (calls.flatMap Call.expand) :=
+  ⟨runTreeC_eq d calls, runHashC_eq m d calls, runSpecC_eq d calls⟩
+
+/-- `tree_refines_spec` and `tree_listing_refines_spec` for histories that include replace calls -/
+theorem tree_refines_spec_calls (d : Name) (calls : List Call) (name : Name) :
+    (runTreeC d calls).findNextHops name = (runSpecC d calls).lpmNextHops name ∧
+    (runTreeC d calls).findStrategy name = (runSpecC d calls).lpmStrategy name ∧
+    (∀ e, e ∈ (runTreeC d calls).listFib ↔ e ∈ (runSpecC d calls).listFib) ∧
+    (∀ e, e ∈ (runTreeC d calls).listStrat ↔ e ∈ (runSpecC d calls).listStrat) := by
+  rw [runTreeC_eq, runSpecC_eq]
+  exact ⟨(tree_refines_spec d _ name).1, (tree_refines_spec d _ name).2,
+    (tree_listing_refines_spec d _).1, (tree_listing_refines_spec d _).2⟩
+
+example : (runTreeC [] [.op (.ins [⟨8, [97]⟩] 1 0), .replace [([⟨8, [97]⟩], [(2, 7)])]]).findNextHops [⟨8, [97]⟩] = [(2, 7)] := by decide
+
+/-- `hash_refines_spec` and `hash_listing_refines_spec` for histories that include replace calls -/
+theorem hash_refines_spec_calls (m : Nat) (hm : 1 ≤ m) (d : Name) (calls : List Call) (name : Name) :
+    (∀ x, x ∈ (runHashC m d calls).findNextHops name ↔ x ∈ (runSpecC d calls).lpmNextHops name) ∧
+    KeysNodup ((runHashC m d calls).findNextHops name) ∧ KeysNodup ((runSpecC d calls).lpmNextHops name) ∧
+    (runHashC m d calls).findStrategy name = (runSpecC d calls).lpmStrategy name ∧
+    (∀ n hops, (n, hops) ∈ (runHashC m d calls).listFib →
+        ∃ hops', (n, hops') ∈ (runSpecC d calls).listFib ∧ ∀ x, x ∈ hops ↔ x ∈ hops') ∧
+    (∀ n hops', (n, hops') ∈ (runSpecC d calls).listFib →
+        ∃ hops, (n, hops) ∈ (runHashC m d calls).listFib ∧ ∀ x, x ∈ hops ↔ x ∈ hops') ∧
+    (∀ e, e ∈ (runHashC m d calls).listStrat ↔ e ∈ (runSpecC d calls).listStrat) := by
+  rw [runHashC_eq, runSpecC_eq]
+  obtain ⟨a, b, c, e⟩ := hash_refines_spec m hm d (calls.flatMap Call.expand) name
+  obtain ⟨f, g, h⟩ := hash_listing_refines_spec m hm d (calls.flatMap Call.expand)
+  exact ⟨a, b, c, e, f, g, h⟩
+
+example : (runHashC 1 [] [.op (.ins [⟨8, [97]⟩, ⟨8, [98]⟩] 1 0), .op (.ins [⟨8, [97]⟩, ⟨8, [98]⟩] 2 5),
+    .replace [([⟨8, [97]⟩, ⟨8, [98]⟩], [(2, 5), (3, 9)])]]).findNextHops [⟨8, [97]⟩, ⟨8, [98]⟩, ⟨8, [99]⟩] = [(2, 5), (3, 9)] := by decide
+
+/-- the two implementations stay observationally identical on histories with replace calls -/
+theorem tree_hash_observationally_equal_calls (m : Nat) (hm : 1 ≤ m) (d : Name) (calls : List Call) (name : Name) :
+    (∀ x, x ∈ (runTreeC d calls).findNextHops name ↔ x ∈ (runHashC m d calls).findNextHops name) ∧
+    (runTreeC d calls).findStrategy name = (runHashC m d calls).findStrategy name ∧
+    (∀ n, (∃ hops, (n, hops) ∈ (runTreeC d calls).listFib) ↔ (∃ hops, (n, hops) ∈ (runHashC m d calls).listFib)) ∧
+    (∀ e, e ∈ (runTreeC d calls).listStrat ↔ e ∈ (runHashC m d calls).listStrat) := by
+  rw [runTreeC_eq, runHashC_eq]
+  exact tree_hash_observationally_equal m hm d _ name
+
+/-- the root keeps a strategy on every management-producible history of calls -/
+theorem strategy_lookup_total_calls (d : Name) (calls : List Call) (hadm : ∀ c ∈ calls, c.admissible = true) (name : Name) :
+    ((runSpecC d calls).lpmStrategy name).isSome ∧ ((runTreeC d calls).findStrategy name).isSome ∧
+    ∀ m, 1 ≤ m → ((runHashC m d calls).findStrategy name).isSome := by
+  rw [runSpecC_eq, runTreeC_eq]
+  obtain ⟨a, b, c⟩ := strategy_lookup_total d _ (expand_admissible calls hadm) name
+  exact ⟨a, b, fun m hm => by rw [runHashC_eq]; exact c m hm⟩
 
 end Ndn.C05
